@@ -438,8 +438,13 @@ fn rt_record(method: u16, class: u8, txid: [u8; 12], attrs: &[(String, Value)], 
         .map(|(k, v)| json!({"kind":k,"fields":strip_helpers(k, v)}))
         .chain(tail.iter().map(|k| json!({"kind":k,"fields":{}})))
         .collect();
+    // every field is always present (TLC must never touch a missing key)
     let mut rec = json!({"op":"rt","method":method,"cls":obs::class_name(class),"txid":bytes_json(&txid),
-                         "attrs":logical,"key":key.name,"big":false});
+                         "attrs":logical,"key":key.name,"big":false,"enc":"none","dec":"none","stage":"",
+                         "enc_size":-1,"dec_size":-2,"hdr_len":-1,"parse_ok":false,"pad_zero":false,
+                         "wire_types":[],"ref_ok":{},"opaque":{"MessageIntegrity":[],"MessageIntegritySha256":[],"Fingerprint":[]},
+                         "bytes":[],"dec_method":-1,"dec_cls":"","dec_txid":[],"dec_attrs":[],"big_equal":false,
+                         "validates":false});
     let built = catch_unwind(AssertUnwindSafe(|| {
         let mut b = stun_rs::StunMessageBuilder::new(
             stun_rs::MessageMethod::try_from(method).unwrap(), class_of(class))
@@ -601,11 +606,17 @@ fn cmd_roundtrip(args: &[String]) {
         // random messages
         for _ in 0..n {
             let na = *[0usize, 1, 1, 2, 2, 3, 4, 6][rng.random_range(0..8)..].first().unwrap();
+            // at most one very large value per message, so that the message stays within 65,535 bytes
+            let mut have_big = false;
             let attrs: Vec<(String, Value)> = (0..na).map(|_| {
                 let k = kinds[rng.random_range(0..kinds.len())];
                 let ne = zoo::n_edges(k);
                 let e = if rng.random_range(0..4) == 0 { rng.random_range(0..ne.max(1)) } else { usize::MAX };
-                (k.to_string(), zoo::generate(k, &mut rng, e))
+                let mut v = zoo::generate(k, &mut rng, e);
+                if v.to_string().len() > 40000 {
+                    if have_big { v = zoo::generate(k, &mut rng, usize::MAX); } else { have_big = true; }
+                }
+                (k.to_string(), v)
             }).collect();
             let mut txid = [0u8; 12];
             rng.fill(&mut txid);
